@@ -229,6 +229,25 @@ func TestWire(t *testing.T) {
 			}
 		}
 	}
+	// buffers longer than a 16-bit length field can express: the announced length is congruent to, but not equal to, the bytes supplied
+	for _, k := range []int{20, 28, 40, 300} {
+		f := make([]byte, 65536+k)
+		copy(f, ValidRequestFrame(r)[:20])
+		f[2], f[3] = byte(k>>8), byte(k)
+		copy(f[20:], []byte{0, 68, 0, 67, byte((k - 20) >> 8), byte(k - 20)})
+		ans := implDecIP(f)
+		s.Op("decip b="+Hex(f), ans, false)
+		panicFind(s, "decip b=(65536+"+fmt.Sprint(k)+" bytes)", ans, "C13", "C10")
+		if ans[:2] == "ok" {
+			s.Find(Finding{Property: "C13", Signature: "decip-strict:64k", What: "DecodeIPv4 accepts a buffer 65536 bytes longer than its total-length field says", Ops: []string{fmt.Sprintf("decip of %d bytes announcing %d", len(f), k)}, Observed: ans[:80]})
+		}
+		u := f[20:]
+		ans = implDecUDP(u)
+		s.Op("decudp b="+Hex(u), ans, false)
+		if ans[:2] == "ok" {
+			s.Find(Finding{Property: "C13", Signature: "decudp-strict:64k", What: "DecodeUDP accepts a buffer 65536 bytes longer than its length field says", Ops: []string{fmt.Sprintf("decudp of %d bytes announcing %d", len(u), k-20)}, Observed: ans[:80]})
+		}
+	}
 	// ARP
 	for i := 0; i < n/4+50; i++ {
 		a := layer.ARP{Opcode: Pick(r, byte(1), 2, byte(r.U64())), SenderMAC: GenMAC(r), TargetMAC: GenMAC(r), SenderIP: GenIP(r), TargetIP: GenIP(r)}
